@@ -18,6 +18,9 @@ REPLIES = ['y\n', 'Y\n', 'yes\n', 'Yes', 'n\n', 'N\n', 'no\n', '\n', '', ' y\n',
            '\u1e99\n', '\u1e99es\n', '\u0178es\n', '\u24e8\n']        # characters that only BECOME y/Y under a case mapping are not a yes
 
 
+RULE += ' Since round 8: dry runs whose standard output breaks (EPIPE after 0-3 writes): nothing may change.'
+
+
 def gen(rng, n):
     scns, metas = [], []
     for i in range(n):
@@ -134,6 +137,23 @@ def run(run, thorough):
     by_id = {id(s): m for s, m in zip(scns, metas)}
     for scn, res in out:
         jobs += judge(run, scn, by_id[id(scn)], res)
+    # whoever reads the output of a dry run goes away (trash-empty --dry-run | head -1): the writes fail with EPIPE from some point on.
+    # However the command ends then, it was a dry run: nothing may change.  (Not tied to the model, which has no failing output.)
+    import copy
+    import sandbox
+    brk, bmetas = [], []
+    for scn, m in zip(scns, metas):
+        if m['mode'] == 'dry' and len(brk) < (60 if not thorough else 600):
+            s2 = copy.deepcopy(scn)
+            s2['steps'][0]['stdout_breaks'] = run.rng.choice([0, 0, 1, 2, 3])
+            if run.rng.random() < 0.5 and '-v' not in s2['steps'][0]['argv']:
+                s2['steps'][0]['argv'] = ['-v'] + s2['steps'][0]['argv']
+            brk.append(s2)
+            bmetas.append(m)
+    for s2, m, res in zip(brk, bmetas, sandbox.execute_many(brk)):
+        if res.get('harness_error') or len(res.get('steps') or []) < 2:
+            continue
+        jobs += judge(run, s2, m, res, section='broken-output')
     engine.run_monitors(run, 'consent-monitor', jobs, 'the consent monitor (Coq, C14) rejects the implementation trace: a mutation without consent',
                         'mutation-without-consent')
     if out:
